@@ -8,6 +8,7 @@ import (
 	"crypto/x509"
 	"encoding/hex"
 	"encoding/json"
+	"encoding/pem"
 	"fmt"
 	"math/big"
 	"math/rand"
@@ -289,18 +290,32 @@ func expectedOf(a assignment, intHash string) effective {
 		}
 		e.CDPStrict = a["crl_cdp_strict"] == "true"
 		e.URLs, e.Files = list(a["crl_urls"]), list(a["crl_files"])
-		for range list(a["trusted_signature_certs_files"]) {
-			e.Trusted = append(e.Trusted, intHash)
+		for _, f := range list(a["trusted_signature_certs_files"]) {
+			e.Trusted = append(e.Trusted, hashOfPEMFile(f, intHash))
 		}
 	}
 	if v := a["default_cache_duration"]; v != "" {
 		e.Cache, _ = time.ParseDuration(v)
 	}
 	e.AIAStrict = a["ocsp_aia_strict"] == "true"
-	for range list(a["trusted_responder_certs_files"]) {
-		e.TrustedOCSP = append(e.TrustedOCSP, intHash)
+	for _, f := range list(a["trusted_responder_certs_files"]) {
+		e.TrustedOCSP = append(e.TrustedOCSP, hashOfPEMFile(f, intHash))
 	}
 	return e
+}
+
+// hashOfPEMFile: identity of the certificate in a PEM file written by the harness (links followed).
+func hashOfPEMFile(path, fallback string) string {
+	b, err := os.ReadFile(path)
+	if err != nil {
+		return fallback
+	}
+	blk, _ := pem.Decode(b)
+	if blk == nil {
+		return fallback
+	}
+	h := sha256.Sum256(blk.Bytes)
+	return hex.EncodeToString(h[:6])
 }
 
 func (e effective) key() string {
@@ -331,6 +346,17 @@ func main() {
 	crlDER := gen.SpecFor(w.Int, entries).Build(w.Int.Key).DER
 	crlFile := filepath.Join(scratch, "configured.crl")
 	_ = os.WriteFile(crlFile, crlDER, 0644)
+	// further valid spellings of the same files: a symbolic link, a second copy in a directory whose
+	// name has a space and non-ASCII letters
+	crlLink := filepath.Join(scratch, "current.crl")
+	_ = os.Symlink(crlFile, crlLink)
+	oddDir := filepath.Join(scratch, "crl drop ünï")
+	_ = os.MkdirAll(oddDir, 0755)
+	crlOdd := filepath.Join(oddDir, "ca 1.crl")
+	_ = os.WriteFile(crlOdd, crlDER, 0644)
+	pemLink := filepath.Join(scratch, "int-current.pem")
+	_ = os.Symlink(intPEM, pemLink)
+	rootPEM := pki.WritePEM(filepath.Join(scratch, "root.pem"), w.Root.Cert)
 	w.CRL.Set("/a.crl", origin.Good(crlDER))
 	w.CRL.Set("/b.crl", origin.Good(crlDER))
 	w.CRL.Set("/bad.crl", origin.Status(500, []byte("down")))
@@ -343,13 +369,13 @@ func main() {
 		"update_interval":               {"45s", "1h"},
 		"signature_validation_mode":     {"none", "verify_log", "verify"},
 		"crl_urls":                      {urlA, urlA + "|" + urlB},
-		"crl_files":                     {crlFile},
-		"trusted_signature_certs_files": {intPEM},
+		"crl_files":                     {crlFile, crlLink, crlFile + "|" + crlOdd},
+		"trusted_signature_certs_files": {intPEM, pemLink, rootPEM + "|" + intPEM},
 		"crl_fetch_mode":                {"fetch_actively", "fetch_background"},
 		"crl_cdp_strict":                {"true", "false"},
 		"default_cache_duration":        {"10m", "0s"},
 		"ocsp_aia_strict":               {"true", "false"},
-		"trusted_responder_certs_files": {intPEM},
+		"trusted_responder_certs_files": {intPEM, pemLink + "|" + rootPEM},
 	}
 	optKeys := make([]string, 0, len(values))
 	for k := range values {
